@@ -20,7 +20,7 @@ EXPLANATION = (
     'cancels the RSocket subscription unless the stream already terminated; terminal signals of the stream mark it '
     'done; (e) the channel handler adapter wires the observable to a publisher and the observer to a subscriber with '
     'the channel\'s limit. Not decided: element-for-element equivalence with the core API.')
-EXPLANATION_ADDED = ("(g) the observable-to-publisher feeders turn every notification into its signal once (OnNext/OnError/OnCompleted, generator values, end and failure), credit published on the feedback subject reaches the feeder's queue and its completion cancels the feeder, the publisher wrapper subscribes the subscriber through its adapter and forwards request/cancel; the request is sent from inside the task whose cancellation sends CANCEL; batch counting of the Rx subscribers (C06.a). No call of a library coroutine function is dropped as a statement or returned un-awaited from another coroutine function (C15.d): the call-backs the library awaits - keepalive timeout included - reach the application through the handler adapters. (i) credit enters the feedback Subject of an observable-backed publisher from request(n) only, carrying the requester's n.")
+EXPLANATION_ADDED = ("(g) the observable-to-publisher feeders turn every notification into its signal once (OnNext/OnError/OnCompleted, generator values, end and failure), credit published on the feedback subject reaches the feeder's queue and its completion cancels the feeder, the publisher wrapper subscribes the subscriber through its adapter and forwards request/cancel; the request is sent from inside the task whose cancellation sends CANCEL; batch counting of the Rx subscribers (C06.a). No call of a library coroutine function is dropped as a statement or returned un-awaited from another coroutine function (C15.d): the call-backs the library awaits - keepalive timeout included - reach the application through the handler adapters. (i) credit enters the feedback Subject of an observable-backed publisher from request(n) only, carrying the requester's n. (j) each request-response served through a handler adapter gets a future of its own: the to_future() operator (which allocates its Future on creation) is created inside request_response, not kept on the adapter.")
 EXPLANATION = EXPLANATION.replace(' Not decided', ' ' + EXPLANATION_ADDED + ' Not decided', 1) \
     if ' Not decided' in EXPLANATION else EXPLANATION + ' ' + EXPLANATION_ADDED
 ASSUMPTIONS = COMMON_ASSUMPTIONS
@@ -748,6 +748,37 @@ def rule_i(ctx):
                 detail or 'the only on_next on a credit Subject is request(n) forwarding its n (%d site)' % len(sites))
 
 
+def rule_j(ctx):
+    """Each request-response served through a handler adapter gets its own future: the Rx `to_future()` operator
+    allocates its Future when the operator object is created, so the operator must be created inside
+    request_response() - per request - and not kept on the adapter and re-applied (every later request on the
+    connection would share, and find resolved, the first request's Future)."""
+    from ..astutil import returned_exprs
+    rep = ctx.report
+    for pkg in PKGS:
+        c = ctx.repo.cls(HANDLER_ADAPTERS[pkg])
+        f = c.methods.get('request_response')
+        if f is None:
+            raise AnalysisError('C20.j: %s.request_response vanished' % c.name)
+        rets = [r for r in returned_exprs(f.node)]
+        ok, detail = bool(rets), ''
+        for r in rets:
+            if not (isinstance(r, ast.Call) and isinstance(r.func, ast.Attribute) and r.func.attr == 'pipe'):
+                ok, detail = False, 'request_response does not return <observable>.pipe(...)'
+                continue
+            fresh = [a for a in r.args if isinstance(a, ast.Call) and ast.unparse(a.func).split('.')[-1] == 'to_future']
+            shared = [a for a in r.args if isinstance(a, ast.Starred) or (
+                not isinstance(a, ast.Call) and 'self.' in ast.unparse(a))]
+            if shared:
+                ok, detail = False, ('the operator chain applied to the response is %s, built outside the request: '
+                                     'every request served by this adapter shares one to_future() Future' %
+                                     ast.unparse(shared[0]))
+            elif len(fresh) != 1:
+                ok, detail = False, 'the response observable is not turned into a future by a to_future() created here'
+        rep.add('C20.j', '%s %s.request_response / a future of its own per request' % (pkg, c.name), f, ok,
+                detail or 'observable.pipe(..., to_future()) with the operator created inside the call')
+
+
 def rule_coroutines(ctx):
     """Every coroutine the library creates is run: the keepalive-timeout (and every other) call-back reaches the
     application through the handler adapters only if the adapter awaits the delegate (rules/binding.py)."""
@@ -755,4 +786,4 @@ def rule_coroutines(ctx):
     rule_coroutines_run(ctx, 'C15.d', ['rsocket', 'reactivestreams'], 'library coroutine calls')
 
 
-RULES = [('C20.a', rule_a), ('C20.b', c06a), ('C20.c', c06b), ('C20.d', rule_d), ('C20.e', rule_e), ('C20.f', rule_f), ('C20.g', rule_g), ('C20.e+C20.g', rule_h), ('C15.d', rule_coroutines), ('C20.i', rule_i)]
+RULES = [('C20.a', rule_a), ('C20.b', c06a), ('C20.c', c06b), ('C20.d', rule_d), ('C20.e', rule_e), ('C20.f', rule_f), ('C20.g', rule_g), ('C20.e+C20.g', rule_h), ('C15.d', rule_coroutines), ('C20.i', rule_i), ('C20.j', rule_j)]
